@@ -745,8 +745,8 @@ LEAN_EXTRA_TARGETS = ("QGen.C18",)
 
 PARTIAL = [
     {"theorem": "exp_tp / exp_series_tp / cp_iff_K_psd", "missing": "trace preservation of exp(L) is proved (Mathlib NormedSpace.exp and every partial sum); the jump part of the generator is CP iff K is PSD (Choi = V K V^H, V^H V = 1) is proved; complete positivity of exp(tL) itself (Lindblad's theorem) is not formalised - to_gate's CP is checked per run on the implementation"},
-    {"theorem": "parts_sum_partial", "missing": "proved for generators of the form rebuild(H,J,K) (Hermitian H, J; any K), comp-basis mode, and on the executed path through convert_hs (extract_of_rebuild_hs); surjectivity of rebuild onto Hermiticity-preserving generators and the hermitian_basis mode of calc_*_part (partHerm, linear image under toHerm + truncation) are not formalised - the oracle evaluates both modes on generic real hs"},
-    {"theorem": "clipK_fix_partial / clipK_psd / projIneq_dissipator", "missing": "inequality projection: the clipped K is PSD for any V (real eigenvalues), it is the dissipator matrix of the rebuilt generator, and nothing is clipped when no eigenvalue is negative; the eigen-decomposition contract K = V diag(lam) V^H of numpy.linalg.eig and the float truncation are not modelled, so 'physical generators are unchanged' is proved at the K level only"},
+    {"theorem": "parts_sum_partial / parts_sum_comp_partial / parts_sum_herm_partial", "missing": "parts sum proved as an equality of matrices in BOTH basis modes (comp and hermitian_basis, before the float truncation of each part) for generators of the form rebuild(H,J,K); surjectivity of rebuild onto Hermiticity-preserving generators is not formalised - the oracle evaluates both modes on generic real hs"},
+    {"theorem": "projIneq_fixed_point / clipK_psd / projIneq_dissipator / clipK_fix_partial", "missing": "inequality projection: clipped K is PSD for any V, it is the dissipator of the rebuilt generator, and under the eig contract (V diag(lam) V^H = calc_k_mat) with no negative eigenvalue the rebuilt generator has the same HS matrix (generator-level fixed point, executed instance); the contract itself (numpy.linalg.eig) and the float truncation / Hermitian guards are hypotheses, not modelled kernels"},
     {"theorem": "gksl_action_hk / hsFromHk_isTp / isCp_iff", "missing": "GKSL action is stated for the exact matrix before _truncate_hs; is_tp of the executed builder's output is proved (hsFromHk_isTp); is_cp is proved as verdict wiring over numpy's eigvalsh result (isCp_iff) and the jump part is CP iff K PSD (cp_iff_K_psd) - 'K PSD <=> exp(tL) CP' is not proved"},
     {"theorem": "jump_operators_gksl_fails", "missing": "negation witness only (D13): the generator built from jump operators is not the GKSL one as coded"},
 ]
